@@ -79,7 +79,7 @@ ImplPost(pre, rec, i) ==
            [] rec.op = "set_plain_content" -> ImplSetPlain(pre[i], rec.arg)
            [] rec.op = "compress"          -> ImplCompress(pre[i], post.content, FALSE)
            [] rec.op = "doc_compress"      -> IF pre[i].allows THEN ImplCompress(pre[i], post.content, FALSE) ELSE pre[i]
-           [] OTHER                        -> ImplDecompress(pre[i], FALSE, FALSE, FALSE, FALSE, TRUE)     \* as the code is: a002bcd repaired filter.empty-array; indirect.* open
+           [] OTHER                        -> ImplDecompress(pre[i], FALSE, FALSE, FALSE, FALSE, FALSE)    \* as the code is: a002bcd repaired filter.empty-array, a93209f indirect.*
 
 Drift(pre, rec, i) ==
     LET post == StateOf(rec.post[i]) ip == ImplPost(pre, rec, i)
